@@ -78,8 +78,39 @@ func extra(out string) {
 	}
 }
 
+// odd adds self-signed certificates whose keys are of kinds the formats do not use
+// (run: genfixtures <outdir> odd). Only the certificates are kept.
+func odd(out string) {
+	p521, _ := ecdsa.GenerateKey(elliptic.P521(), rand.Reader)
+	p224, _ := ecdsa.GenerateKey(elliptic.P224(), rand.Reader)
+	rsaKey, _ := rsa.GenerateKey(rand.Reader, 2048)
+	edPub, edKey, _ := ed25519.GenerateKey(rand.Reader)
+	for i, k := range []struct {
+		name string
+		pub  interface{}
+		key  interface{}
+	}{{"odd-p521", &p521.PublicKey, p521}, {"odd-p224", &p224.PublicKey, p224}, {"odd-rsa", &rsaKey.PublicKey, rsaKey}, {"odd-ed25519", edPub, edKey}} {
+		t := &x509.Certificate{
+			SerialNumber: big.NewInt(int64(300 + i)), Subject: pkix.Name{CommonName: "example.com"},
+			NotBefore: time.Unix(1500000000, 0), NotAfter: time.Unix(4000000000, 0),
+			DNSNames: []string{"example.com", "fifth.example"}, KeyUsage: x509.KeyUsageDigitalSignature,
+		}
+		der, err := x509.CreateCertificate(rand.Reader, t, t, k.pub, k.key)
+		if err != nil {
+			fmt.Println(k.name, "skipped:", err)
+			continue
+		}
+		writePEM(filepath.Join(out, k.name+".cert.pem"), "CERTIFICATE", der)
+		fmt.Println(k.name, len(der))
+	}
+}
+
 func main() {
 	out := os.Args[1]
+	if len(os.Args) > 2 && os.Args[2] == "odd" {
+		odd(out)
+		return
+	}
 	if len(os.Args) > 2 && os.Args[2] == "extra" {
 		extra(out)
 		return
